@@ -27,7 +27,7 @@ TITLE = 'METAL = inlining'
 LEVEL = 'exploration'
 SHARDS = {'quick': 16, 'thorough': 16}
 FLOOR = {'quick': 800, 'thorough': 10000}
-REQUIRED_MONITORS = {'pairs-compared': 2000, 'uses-with-fillers': 800, 'extend-chains': 150, 'switch-boundary-compared': 100, 'history-uses-compared': 100}
+REQUIRED_MONITORS = {'pairs-compared': 2000, 'uses-with-fillers': 800, 'extend-chains': 150, 'switch-boundary-compared': 100, 'history-uses-compared': 100, 'translation-block-slots-compared': 100}
 RULE = ('a case = (library of 1..3 macros with 0..3 define-slot regions each - repeated slot names allowed, nested uses of '
         'earlier macros inside bodies, extend-macro chains up to length 3 - , caller with 1..3 uses filling random subsets of '
         'slots plus unknown names, uses inside tal:repeat / tal:define, two consecutive uses in one scope, local and global '
@@ -378,6 +378,38 @@ def run(ctx):
         shutil.rmtree(tmp, ignore_errors=True)
     layer_switch_across_boundaries(ctx, 12 if ctx.quick else 100)
     layer_redefinition_histories(ctx, 10 if ctx.quick else 120)
+    layer_slots_in_translation_blocks(ctx, 12 if ctx.quick else 150)
+
+
+def layer_slots_in_translation_blocks(ctx, n):
+    """Slots that stand inside an i18n:translate / i18n:name block of the macro, and macro uses that stand inside
+    such a block of the caller: the filler's output belongs where the slot stands (inlining)."""
+    rng = ctx.rng
+    for case in range(n):
+        where = rng.choice(['slot-in-translate', 'slot-in-name', 'slot-in-nested-name', 'plain'])
+        caller_in = rng.choice(['plain', 'translate', 'name'])
+        filler = rng.choice(['<f>FILL${f(5)}</f>', '<f tal:content="f(5)">x</f>', '<f><b tal:condition="f(5)">y</b>z</f>'])
+        fill_attr = ' metal:fill-slot="s"'
+        fsrc = filler.replace('<f', '<f' + fill_attr, 1)
+        slot = '<i metal:define-slot="s">d${f(3)}</i>'
+        shapes = {
+            'slot-in-translate': '<p i18n:translate="">A ${f(1)} %s B</p>',
+            'slot-in-name': '<p i18n:translate="">before <b i18n:name="n">[%s]</b> after</p>',
+            'slot-in-nested-name': '<p i18n:translate="">o <b i18n:name="n"><u i18n:translate="">i <q i18n:name="k">%s</q> j</u></b> p</p>',
+            'plain': '(%s)',
+        }
+        lib = '<lib><m metal:define-macro="m">%s${f(2)}</m></lib>' % (shapes[where] % slot)
+        use = '<u metal:use-macro="lib.macros[\'m\']">%s</u>' % fsrc
+        inl = '<m>%s${f(2)}</m>' % (shapes[where] % filler)
+        wrap = {'plain': '%s', 'translate': '<p i18n:translate="">C %s D</p>', 'name': '<p i18n:translate="">C <b i18n:name="k9">%s</b> D</p>'}[caller_in]
+        got = render('<x>' + wrap % use + '</x>', {}, lib=lib)
+        want = render('<x>' + wrap % inl + '</x>', {})
+        ctx.mon('translation-block-slots-compared')
+        ctx.case(key=('slot-in-translation-block', where, caller_in, filler[:8]), nontrivial=True)
+        if got != want:
+            ctx.violation('slot-in-translation-block-differs', 'slot %s, use %s\n  LIB %r\n  CALLER %r\n  with METAL %r\n  inlined %r' % (
+                where, caller_in, lib, wrap % use, got, want),
+                {'kind': 'metal', 'lib': lib, 'caller': '<x>' + wrap % use + '</x>', 'inlined': '<x>' + wrap % inl + '</x>', 'env': {}, 'placement': 'other'})
 
 
 def layer_redefinition_histories(ctx, n):
